@@ -1,0 +1,29 @@
+//go:build verif
+
+package pebble
+
+// Machine-checked contracts for /verif (read as text by the VC generator; no code).
+//
+// allff(p, n): the first n bytes of p are 0xff
+//@ spec allff(p []byte, n int) bool = forall(j, 0, n, p[j] == 255)
+//@ // bytesPrefix: the lower bound is the prefix itself; the upper bound is the prefix with its last non-0xff byte
+//@ // incremented and everything after it cut off (the least byte string above every string with this prefix), or nil
+//@ // when every byte is 0xff (no upper bound exists)
+//@ func bytesPrefix
+//@   ensures  [lower] result.LowerBound == prefix
+//@   ensures  [none] allff(prefix, len(prefix)) ==> result.UpperBound == nil
+//@   ensures  [upper] !allff(prefix, len(prefix)) ==> result.UpperBound != nil && fresh(result.UpperBound) && len(result.UpperBound) >= 1 && len(result.UpperBound) <= len(prefix) &&
+//@            result.UpperBound[len(result.UpperBound) - 1] == prefix[len(result.UpperBound) - 1] + 1 && prefix[len(result.UpperBound) - 1] < 255 &&
+//@            forall(j, 0, len(result.UpperBound) - 1, result.UpperBound[j] == prefix[j]) && forall(j, len(result.UpperBound), len(prefix), prefix[j] == 255)
+//@   loop 1 invariant -1 <= i && i < len(prefix) && limit == nil && forall(j, i + 1, len(prefix), prefix[j] == 255)
+//@
+//@ // bytesPrefixRange: nil without prefix and start; otherwise the lower bound is prefix followed by start, in storage
+//@ // of its own (the caller's prefix buffer is not written, also not beyond its length), and the upper bound is that of the prefix
+//@ func bytesPrefixRange
+//@   requires len(prefix) + len(start) <= 4611686018427387904
+//@   ensures  [nil] (prefix == nil && start == nil) == (result == nil)
+//@   ensures  [lower] result != nil ==> isCat(result.LowerBound, prefix, start)
+//@   ensures  [none] result != nil && (prefix == nil || allff(prefix, len(prefix))) ==> result.UpperBound == nil
+//@   ensures  [upper] result != nil && prefix != nil && !allff(prefix, len(prefix)) ==> result.UpperBound != nil && len(result.UpperBound) >= 1 && len(result.UpperBound) <= len(prefix) &&
+//@            result.UpperBound[len(result.UpperBound) - 1] == prefix[len(result.UpperBound) - 1] + 1 &&
+//@            forall(j, 0, len(result.UpperBound) - 1, result.UpperBound[j] == prefix[j]) && forall(j, len(result.UpperBound), len(prefix), prefix[j] == 255)
